@@ -147,6 +147,23 @@ func procsWithMarker(marker string) []int {
 	return pids
 }
 
+// killMarkedPrefix kills every process whose environment carries a marker
+// starting with prefix.
+func killMarkedPrefix(prefix string) {
+	needle := []byte("PCV_MARK=" + prefix)
+	ents, _ := os.ReadDir("/proc")
+	for _, e := range ents {
+		pid, err := strconv.Atoi(e.Name())
+		if err != nil {
+			continue
+		}
+		b, err := os.ReadFile("/proc/" + e.Name() + "/environ")
+		if err == nil && bytes.Contains(b, needle) {
+			_ = syscall.Kill(pid, syscall.SIGKILL)
+		}
+	}
+}
+
 func killMarked(marker string) {
 	for _, pid := range procsWithMarker(marker) {
 		_ = syscall.Kill(pid, syscall.SIGKILL)
@@ -220,7 +237,7 @@ func runRealProc(c fw.Case) fw.Result {
 		return r
 	}
 	defer os.RemoveAll(dir)
-	marker := fmt.Sprintf("m%d_%d_%d", os.Getpid(), c.Idx, time.Now().UnixNano()%1000000)
+	marker := fmt.Sprintf("m%s_%d_%d_%d", os.Getenv("PCVERIF_RUN_ID"), os.Getpid(), c.Idx, time.Now().UnixNano()%1000000)
 	defer killMarked(marker)
 	script := filepath.Join(dir, "member.sh")
 	_ = os.WriteFile(script, []byte(memberScript), 0o755)
@@ -336,9 +353,9 @@ func runRealProc(c fw.Case) fw.Result {
 			if ee, ok := err.(*exec.ExitError); ok {
 				binExit = ee.ExitCode()
 			}
-		case <-time.After(time.Duration(sp.Timeout+12) * time.Second):
+		case <-time.After(time.Duration(sp.Timeout+40) * time.Second):
 			_ = cmd.Process.Kill()
-			r.Add("C06", "binary-did-not-exit", "process-compose did not exit within %d s after %s", sp.Timeout+12, sp.Trigger)
+			r.Add("C06", "binary-did-not-exit", "process-compose did not exit within %d s after %s", sp.Timeout+40, sp.Trigger)
 			r.Witness = append(strings.Split(y.String(), "\n"), out.String())
 			return r
 		}
@@ -375,8 +392,8 @@ func runRealProc(c fw.Case) fw.Result {
 		}()
 		select {
 		case <-done:
-		case <-time.After(time.Duration(sp.Timeout+15) * time.Second):
-			r.Add("C06", "stop-did-not-return", "%s did not return within %d s", sp.Trigger, sp.Timeout+15)
+		case <-time.After(time.Duration(sp.Timeout+40) * time.Second):
+			r.Add("C06", "stop-did-not-return", "%s did not return within %d s", sp.Trigger, sp.Timeout+40)
 			r.Witness = strings.Split(y.String(), "\n")
 			r.Dirty = true
 			return r
@@ -397,7 +414,7 @@ func runRealProc(c fw.Case) fw.Result {
 	// on speed (a loaded machine delays bash traps by hundreds of ms)
 	stopReturned := time.Now()
 	wantSig := strconv.Itoa(effSignal(sp.Signal))
-	settle := time.Now().Add(10 * time.Second)
+	settle := time.Now().Add(30 * time.Second)
 	for {
 		pids, got := map[string]string{}, map[string]bool{}
 		for _, l := range readTrapLog(logf) {
@@ -463,7 +480,7 @@ func runRealProc(c fw.Case) fw.Result {
 	// SIGKILL escalation: never earlier than timeout_seconds after the stop request
 	if sp.Timeout > 0 && ((sp.Ignore && effSignal(sp.Signal) == 15) || sp.KidIgnore) && usesSignal && !sp.ParentOnly {
 		// the ignoring member dies only by SIGKILL: poll for its death
-		deadline := stopRequested.Add(time.Duration(sp.Timeout)*time.Second + 6*time.Second)
+		deadline := stopRequested.Add(time.Duration(sp.Timeout)*time.Second + 20*time.Second)
 		var gone time.Time
 		for time.Now().Before(deadline) {
 			if len(procsWithMarkerExcept(marker, "plain")) == 0 {
@@ -478,7 +495,7 @@ func runRealProc(c fw.Case) fw.Result {
 			if sp.KidIgnore && !(sp.Ignore && effSignal(sp.Signal) == 15) {
 				key = "no-sigkill-after-timeout:ignoring-descendant-of-exited-parent"
 			}
-			r.Add("C06", key, "a member ignoring SIGTERM is still alive %d s after the stop request (timeout_seconds %d)", sp.Timeout+6, sp.Timeout)
+			r.Add("C06", key, "a member ignoring SIGTERM is still alive %d s after the stop request (timeout_seconds %d)", sp.Timeout+20, sp.Timeout)
 		}
 	}
 	if sp.Timeout > 0 && sp.Ignore && usesSignal && effSignal(sp.Signal) == 15 {
@@ -593,8 +610,10 @@ func init() {
 			}
 			return cs
 		},
-		Run:            runRealProc,
+		Run: runRealProc,
+		// children killed by a watchdog cannot sweep their process trees
+		Cleanup:        func() { killMarkedPrefix("m" + fmt.Sprint(os.Getpid()) + "_") },
 		Workers:        func(string) int { return 32 },
-		PerCaseTimeout: 120 * time.Second,
+		PerCaseTimeout: 180 * time.Second,
 	})
 }
